@@ -20,6 +20,8 @@ pub const STRING_POOL: &[&str] = &[
     "main",
     "GLSL.std.450",
     "OpenCL.std",
+    "NonSemantic.Shader.DebugInfo.100",
+    "NonSemantic.DebugPrintf",
     "quote\"inside",
     "back\\slash",
     "tab\there",
@@ -75,16 +77,95 @@ pub struct Gen {
     pub force_string: Option<String>,
     /// only pick mask bits / enumerants that take no parameters
     pub param_free: bool,
+    /// Some(state): ids are drawn from "interesting" values and ranges (powers of two +-1, powers of ten,
+    /// 0x3FFFFF, 16-bit/20-bit/32-bit edges, mid-range and full-range random), still unique
+    pub scatter: Option<u64>,
+    used_ids: std::collections::HashSet<u32>,
+}
+
+pub fn interesting_ids() -> &'static Vec<u32> {
+    static V: std::sync::OnceLock<Vec<u32>> = std::sync::OnceLock::new();
+    V.get_or_init(|| {
+        let mut v = vec![0x3F_FFFEu32, 0x3F_FFFF, 0x40_0000, 0x40_0001, u32::MAX, u32::MAX - 1, 0x7FFF_FFFF, 255, 256, 257];
+        for k in 7..32u32 {
+            let p = 1u32 << k;
+            v.extend([p - 1, p, p.wrapping_add(1)]);
+        }
+        let mut t = 100u64;
+        while t < u32::MAX as u64 {
+            v.extend([(t - 1) as u32, t as u32, (t + 1) as u32]);
+            t *= 10;
+        }
+        v.sort();
+        v.dedup();
+        v
+    })
 }
 
 impl Gen {
     pub fn new(start_id: u32) -> Gen {
-        Gen { next_id: start_id, types: TypeModel::new(), num_types: vec![], typed_values: vec![], lit: LitStyle::Marker, forces: vec![], max_variadic: 3, force_string: None, param_free: false }
+        Gen { next_id: start_id, types: TypeModel::new(), num_types: vec![], typed_values: vec![], lit: LitStyle::Marker, forces: vec![], max_variadic: 3, force_string: None, param_free: false, scatter: None, used_ids: Default::default() }
     }
     pub fn fresh(&mut self) -> u32 {
-        let v = self.next_id;
-        self.next_id += 1;
-        v
+        if let Some(state) = self.scatter {
+            let mut st = state;
+            for _ in 0..64 {
+                st = crate::util::mix(st);
+                let r = st >> 8;
+                let cand = match st & 7 {
+                    0 | 1 => {
+                        let l = interesting_ids();
+                        l[(r % l.len() as u64) as usize]
+                    }
+                    2 => 1 + (r % 1000) as u32,
+                    3 | 4 => 1 + (r % 100_000) as u32,
+                    5 => 1 + (r % (1 << 22)) as u32,
+                    6 => {
+                        // just above an interesting value, so that runs cross boundaries
+                        let l = interesting_ids();
+                        l[(r % l.len() as u64) as usize].wrapping_add(1 + ((r >> 20) % 4) as u32)
+                    }
+                    _ => r as u32,
+                };
+                if cand != 0 && self.used_ids.insert(cand) {
+                    self.scatter = Some(st);
+                    if cand >= self.next_id {
+                        self.next_id = cand.saturating_add(1);
+                    }
+                    return cand;
+                }
+            }
+            self.scatter = Some(st);
+        }
+        loop {
+            let v = self.next_id;
+            self.next_id = self.next_id.saturating_add(1);
+            if self.scatter.is_none() || self.used_ids.insert(v) {
+                return v;
+            }
+        }
+    }
+    /// A generator with a randomly chosen id policy: sequential from 1000, scattered over interesting
+    /// values and ranges, or sequential starting just below an interesting value (so that consecutive
+    /// ids cross it, as a Builder's counter would).
+    pub fn with_id_policy(rng: &mut Rng) -> Gen {
+        match rng.below(3) {
+            0 => Gen::new(1000),
+            1 => {
+                let mut g = Gen::new(1000);
+                g.scatter_ids(rng.next());
+                g
+            }
+            _ => {
+                let l = interesting_ids();
+                let base = l[rng.below(l.len())];
+                Gen::new(base.saturating_sub(rng.below(40) as u32).max(1).min(u32::MAX - 100_000))
+            }
+        }
+    }
+    /// Switches to scattered ids (see `scatter`).
+    pub fn scatter_ids(&mut self, seed: u64) {
+        self.scatter = Some(seed | 1);
     }
     fn lit32(&mut self, rng: &mut Rng) -> u32 {
         match self.lit {
